@@ -676,6 +676,14 @@ func (fr *frame) calleeEnv(ctr *FuncContract, callee *ssa.Function, cc *ssa.Call
 		}
 	}
 	bindResults(env, fc, resName, resT, sigOf(callee, cc))
+	// a closure of this frame called directly (e.g. by defer): its captured variables are this frame's
+	if cc != nil {
+		if mc, ok := fr.closures[cc.Value]; ok {
+			ce := fr.closureEnv(ctr, mc, pre, post)
+			env.lookup = ce.lookup
+			env.addrOf = ce.addrOf
+		}
+	}
 	return env
 }
 
